@@ -1,9 +1,9 @@
-\* MC_mtu -- generated by mkcfg.py; payload lengths around the padding and buffer boundaries
+\* MC_quota -- generated by mkcfg.py; counting quota: q1 holds at most one allocation
 SPECIFICATION Spec
 VIEW View
 CONSTANTS
-  Clients = {"c1"}
-  Users = {"u1"}
+  Clients = {"c1", "c2"}
+  Users = {"q1", "u1"}
   PeerIPs = {"A"}
   PeerPorts = {1}
   Fam <- MCFam
@@ -11,10 +11,10 @@ CONSTANTS
   Strict = FALSE
   ReqFams = {0}
   ChanNums = {16384}
-  LifeReqs <- MCLifeAbsent
-  Txids = {"t1"}
-  Pays = {"p", "stunlike", "chanlike", "zeros", "cookie"}
-  Lens <- MCLensMTU
+  LifeReqs <- MCLifeAbsent0
+  Txids = {"t1", "t2"}
+  Pays = {"p"}
+  Lens <- MCLenSmall
   InboundMTU = 1600
   PermSeqs <- MCPermSeqs1
   DefaultLife = 5
@@ -25,7 +25,7 @@ CONSTANTS
   Toks = {"none"}
   ResvTO = 30
   QuotaDenied = {}
-  MaxDepth = 4
+  MaxDepth = 6
 CONSTRAINT DepthBound
 INVARIANTS TypeOK C01_NeverInstalled NoOrphans C08_Bijection C08_Range C19_ReservedOnce
 PROPERTIES C01_OnlyAuthorised C02_OnlyPermitted C04_Isolation C05_WithinLimitsDelivered C06_Exact C07_FullRestart C08_Conflict400 C19_SecondAllocate C19_TokenNeedsReservation
